@@ -283,7 +283,7 @@ func fail(rt interface{ Fatalf(string, ...interface{}) }, sub, test, canon, prob
 }
 
 func TestRequestRoundTrip(t *testing.T) {
-	ev.Check(t, "request", ev.N(40000, 800000), func(rt *rapid.T) {
+	ev.Check(t, "request", ev.N(40000, 6000000), func(rt *rapid.T) {
 		f := rapid.SampledFrom(svc.Catalogue).Draw(rt, "fn")
 		name := spell(rt, f.Name)
 		args, shape := genArgs(rt, f)
@@ -435,7 +435,7 @@ type resultShape struct {
 }
 
 func TestResponseRoundTrip(t *testing.T) {
-	ev.Check(t, "response", ev.N(40000, 800000), func(rt *rapid.T) {
+	ev.Check(t, "response", ev.N(40000, 6000000), func(rt *rapid.T) {
 		f := rapid.SampledFrom(svc.Catalogue).Draw(rt, "fn")
 		co, so := genOptions(rt, "c."), genOptions(rt, "s.")
 		var rs resultShape
@@ -579,7 +579,7 @@ func TestJSONRPC(t *testing.T) {
 	for _, f := range svc.Catalogue {
 		jsonService.AddFunction(f.F, f.Name)
 	}
-	ev.Check(t, "jsonrpc", ev.N(15000, 300000), func(rt *rapid.T) {
+	ev.Check(t, "jsonrpc", ev.N(15000, 2000000), func(rt *rapid.T) {
 		f := rapid.SampledFrom(jsonFns).Draw(rt, "fn")
 		name := spell(rt, f.Name)
 		n := len(f.In)
